@@ -51,6 +51,11 @@ def run(ctx):
     r3_r4(ctx)
     r5(ctx)
     r6(ctx)
+    # the client's session keys are the SHA-256 halves of the 16 bytes carried in the metadata: the derivation of those 16
+    # bytes in the client (C19.R4, fixed width) is part of the agreement between client and server keys
+    from rules import c19
+
+    ctx.import_obligations("R7", c19.r4)
 
 
 def r1(ctx):
